@@ -13,7 +13,8 @@ Implementation under test (imported from $SCALES_REPO as it is now):
             Deadlines are signalled exactly as ClientTimeoutSink does: evt = Observable() stored under
             Deadline.EVENT_KEY, evt.Set(True) at expiry.
 Model: coq/Model/MuxTags.v.  Monitor: an independent bookkeeping of who holds which tag, computed from the
-frames queued/written and the frames the scripted peer sent (never from the model, never from private fields).
+frames queued/written (tags parsed off the wire bytes by decode_written), the frames the scripted peer sent and the
+get()/release() calls the sink makes on its TagPool (never from the model, never from the sink's private fields).
 """
 import collections
 import io
@@ -37,13 +38,19 @@ RULE = ('suite (a): seeded TagPool histories (max_tag 3..9 and 2^24-1; get / rel
         'already expired one; send-loop steps (write ok / write fails); deadline firing and its notification greenlet scheduled '
         'independently; peer frames of 12 types on tags 0, 1, live, free, never-issued, 2^24-1, duplicates and premature '
         'replies; short frames; pings; Close / EOF; re-open on a new connection; TagPool sizes 4..7 to reach exhaustion and '
-        'the real 2^24-1; scripted time-out-before/after-send and late-reply scenarios interleaved with the random ops; steady '
+        'the real 2^24-1; in ~30% of the real-size cases the pool of every connection is fast-forwarded (high-water mark 254, 255, '
+        '4094, 2^16-4..2^16+1, 2^17-2.., 2^20-1, 2^23-2.., 2^24-40..2^24-3 or random) so that tags around every byte boundary and '
+        'up to 2^24-2 (then refusal) go through the real header writer, with peer frames aimed at those tags and at their 8/16/23-bit '
+        'truncations; scripted time-out-before/after-send and late-reply scenarios interleaved with the random ops; steady '
         'long runs (400 / 2 000 / 100 000 requests, at most 8 unanswered: highest tag must stay <= 9). non-trivial = at least one '
         'request frame was written and a tag was recycled or a request refused; distinct by canonical JSON of (case, observation)')
-TRUSTED = ['in-memory socket / step-granting queue / captured Observable notification in harness/props/c11.py (the only '
-           'replaced collaborators; TagPool, both transport sinks, Observable, AsyncResult and gevent are the real ones)',
+TRUSTED = ['in-memory socket / step-granting queue / captured Observable notification / lease-recording TagPool proxy in '
+           'harness/props/c11.py (the only replaced collaborators; TagPool, both transport sinks, Observable, AsyncResult and gevent are the real ones)',
            'independent tag bookkeeping in monitor() of harness/props/c11.py']
-ASSUMPTIONS = ['gevent greenlets only switch at blocking calls, so AsyncProcessRequest, one _SendLoop iteration, one '
+ASSUMPTIONS = ['a pool fast-forwarded to high-water mark b (b-1 real get() calls for b <= 4096, TagPool._next = b above) stands for a '
+               'pool whose tags 2..b are leased to holders outside the run; the fill cases / C11_fill tie that state to b-1 get() calls, '
+               'and the theorems hold for every start mark (cfg.base)',
+               'gevent greenlets only switch at blocking calls, so AsyncProcessRequest, one _SendLoop iteration, one '
                '_ProcessReply and one notification callback are atomic (the labels of the model)',
                'a request is "answered" when the peer sends a non-ping frame naming its tag while the request holds that tag '
                '(a peer that answers before the request frame is written has answered it)',
@@ -57,7 +64,8 @@ MANIFEST = {
              'deadline firing/notification, arbitrary peer frames, pings, shutdown, re-open; no bound on length, every set.pop() outcome) '
              'of the Gallina transcription of TagPool and the mux transport; the transcription is compared event for event with the real '
              'TagPool and the real ThriftMux/Kafka transport sinks on ~3k (quick) / ~19k (thorough) generated histories per run, and an '
-             'independent monitor checks the property on the queued/written frames.'),
+             'independent monitor checks the property on the tags parsed off the queued/written frames (compared with the tags leased '
+             'from the pool, also for pools fast-forwarded to 2^16 and 2^24-2).'),
     'note': ('Trusted: Coq kernel; the harness (in-memory socket, step-granting send queue, captured notification greenlet) and its '
              'sampling of schedules; atomicity of greenlet code between blocking calls. All theorems closed under the global context.'),
     'technique': 'Coq proof (inductive invariant over all label sequences) + lock-step / trace-driven differential execution model vs code',
@@ -66,7 +74,9 @@ MANIFEST = {
 
 REAL_MAX = 2 ** 24 - 1
 _S = {}
-_CUR = {'ev': None, 'queues': None, 'pending': None, 'evt_call': None, 'helpers': None, 'pool_args': None, 'max': None}
+_CUR = {'ev': None, 'queues': None, 'pending': None, 'evt_call': None, 'helpers': None, 'pool_args': None, 'max': None,
+        'start': None}
+FFWD_BY_CALLS = 4096     # fast-forward a pool by really calling get() up to this mark, above it by setting the mark
 
 
 def _emit(*e):
@@ -233,10 +243,35 @@ def setup():
   CtlQueue, ObsGevent, MuxGevent, FakeSocket, Stack = _make_world()
   real_pool = ms.TagPool
 
+  class RecordingPool(object):
+    """The sink's TagPool collaborator: the real pool, with every lease and release recorded."""
+
+    def __init__(self, pool):
+      self._pool = pool
+
+    def get(self):
+      t = self._pool.get()
+      _emit('lease', t)
+      return t
+
+    def release(self, tag):
+      _emit('release', tag)
+      return self._pool.release(tag)
+
   def pool_factory(max_tag, service, host):
     if _CUR['pool_args'] is not None:
       _CUR['pool_args'].append(max_tag)
-    return real_pool(_CUR['max'] if _CUR['max'] else max_tag, service, host)
+    pool = real_pool(_CUR['max'] if _CUR['max'] else max_tag, service, host)
+    st = _CUR['start']
+    if st and st > 1:
+      # fast-forward: the state st-1 calls of get() leave behind (high-water mark st, nothing released; this
+      # equivalence is what the 'fill' cases and C11_fill establish)
+      if st <= FFWD_BY_CALLS:
+        for _ in range(st - 1):
+          pool.get()
+      else:
+        pool._next = st
+    return RecordingPool(pool)
 
   class NoPing(object):
     """random as seen by scales.thriftmux.sink: the periodic ping (every 30-40 s of real time) never fires by itself;
@@ -280,9 +315,16 @@ def _gen_pool(r, big=False):
   return {'kind': 'pool', 'max': mx, 'ops': ops}
 
 
-def _gen_mux(r, nops, proto=None, mx=None, conc=None):
+FFWD_STARTS = [254, 255, 4094, 65532, 65533, 65534, 65535, 65536, 65537, 131070, 131071, 2 ** 20 - 1, 2 ** 23 - 2, 2 ** 23 - 1,
+               2 ** 24 - 40, 2 ** 24 - 12, 2 ** 24 - 7, 2 ** 24 - 5, 2 ** 24 - 4, 2 ** 24 - 3]
+
+
+def _gen_mux(r, nops, proto=None, mx=None, conc=None, start=None):
   proto = proto or ('kafka' if r.random() < 0.15 else 'thriftmux')
-  if mx is None:
+  if start is None and mx is None and r.random() < 0.3:
+    start = r.choice(FFWD_STARTS + [r.randrange(2, 2 ** 24 - 3)])     # real TagPool(2^24-1), high-water mark fast-forwarded
+  off = (start - 1) if start else 0
+  if mx is None and not start:
     mx = r.choice([None, None, None, 4, 5, 6, 7])
   conc = conc or r.choice([1, 2, 3, 5, 8])
   style = r.choice(['mixed', 'mixed', 'timeouts', 'adversarial', 'steady'])
@@ -306,13 +348,13 @@ def _gen_mux(r, nops, proto=None, mx=None, conc=None):
       live.append(nc)
       outstanding += 1
       sends = [['send', 1]] * r.choice([1, 1, 2, 3])
-      noise = [['recv', r.choice(RTYPES), r.randrange(0, 8)]] if r.random() < 0.3 else []
+      noise = [['recv', r.choice(RTYPES), r.choice([0, off]) + r.randrange(0, 8)]] if r.random() < 0.3 else []
       if k == 'm_after':      # written, then the deadline fires: Tdiscarded, tag stays leased until the peer answers
         ops += [['req', nc, 1]] + sends + noise + [['fire', nc], ['notify', nc]] + sends
       elif k == 'm_before':   # the deadline fires while the request is still queued: dropped, tag released
         ops += [['req', nc, 1]] + noise + [['fire', nc]] + sends + [['notify', nc]]
       else:                   # the peer answers late / twice, the tag is recycled by the next request
-        t = r.randrange(2, 3 + conc)
+        t = off + r.randrange(2, 3 + conc)
         ops += [['req', nc, 1]] + sends + [['fire', nc], ['notify', nc], ['recv', -2, t]] + noise + [['req', nc + 1, 0], ['recv', -2, t]] + sends
         nc += 1
         live.append(nc)
@@ -332,13 +374,15 @@ def _gen_mux(r, nops, proto=None, mx=None, conc=None):
     elif k == 'recv':
       q = r.random()
       if q < 0.62:
-        tag = r.randrange(2, 3 + max(2, min(conc + 1, 9)))
+        tag = off + r.randrange(2, 3 + max(2, min(conc + 1, 9)))
       elif q < 0.72:
         tag = 1
       elif q < 0.80:
         tag = 0
       elif q < 0.92:
-        tag = r.randrange(2, 14)
+        tag = r.choice([0, off, off]) + r.randrange(2, 14)
+        if off and r.random() < 0.3:
+          tag &= r.choice([0xffff, 0xff, 0x7fffff])        # what a truncated tag would look like
       else:
         tag = r.choice(EDGE_TAGS + [r.randrange(0, 2 ** 24)])
       if proto == 'kafka' and r.random() < 0.05:
@@ -357,12 +401,18 @@ def _gen_mux(r, nops, proto=None, mx=None, conc=None):
       outstanding = 0
       for _x in range(r.choice([0, 0, 1, 2, 4])):       # a few ops on the dead connection, then usually a new one
         ops.append(r.choice([['req', nc + 1000 + _x, 0], ['notify', r.choice(live or [1])], ['fire', r.choice(live or [1])],
-                             ['recv', -2, 2], ['send', 1]]))
+                             ['recv', -2, off + 2], ['send', 1]]))
       if r.random() < 0.8:
         ops.append(['reopen'])
     elif k == 'reopen':
       ops.append(['reopen'])
-  return {'kind': 'mux', 'proto': proto, 'max': mx, 'ops': ops}
+  for op in ops:
+    if op[0] == 'recv':
+      op[2] = min(op[2], 2 ** 24 - 1) if proto == 'thriftmux' else op[2]
+  c = {'kind': 'mux', 'proto': proto, 'max': mx, 'ops': ops}
+  if start:
+    c['start'] = start
+  return c
 
 
 def _gen_longrun(r, nreq, conc=8):
@@ -578,7 +628,7 @@ def _translate(proto, raw):
 def _run_mux(case):
   proto = case['proto']
   ev = []
-  _CUR.update(ev=ev, queues=[], pending={}, evt_call={}, helpers=[], pool_args=[], max=case.get('max'))
+  _CUR.update(ev=ev, queues=[], pending={}, evt_call={}, helpers=[], pool_args=[], max=case.get('max'), start=case.get('start'))
   res = {'steps': [], 'handshakes': []}
   calls = {}      # c -> dict(evt, fired, conn)
   keep = []       # keeps Observables alive so that id() stays unique
@@ -669,6 +719,7 @@ def _run_mux(case):
     _CUR['ev'] = None
     _CUR['evt_call'] = None
     _CUR['max'] = None
+    _CUR['start'] = None
     for cn in conns:
       try:
         cn.sink.Close()
@@ -776,9 +827,11 @@ def _monitor_mux(case, obs):
     if proto == 'kafka' and (hs or not ok):
       v.append(('handshake', 'open wrote %s, opened=%s' % (hs, ok)))
 
-  held = {}          # tag -> call currently holding it (queued or written, no answer yet)
+  hi0 = case.get('start') or 1      # high-water mark a new connection's pool starts from
+  held = {}          # WIRE tag -> call currently holding it (queued or written, no answer yet)
   free = set()       # released tags not handed out again
-  hi = 1             # highest tag handed out on this connection
+  hi = hi0           # highest tag handed out on this connection
+  leased = {}        # call -> tag TagPool.get() returned for it
   queued = {}        # call -> tag it was queued with
   written = set()
   fired = set()
@@ -787,7 +840,7 @@ def _monitor_mux(case, obs):
   for i, (op, evs) in enumerate(zip(case['ops'], obs['steps'])):
     k = op[0]
     if k == 'reopen' and closed:
-      held, free, hi, peak, closed = {}, set(), 1, 0, False
+      held, free, hi, peak, closed = {}, set(), hi0, 0, False
     if k == 'fire' or (k == 'req' and op[2] >= 2):
       fired.add(op[1])
     # what the peer frame of this op answers (decided on the wire, before looking at what the client did)
@@ -799,11 +852,25 @@ def _monitor_mux(case, obs):
         answered = held.pop(tag)
         free.add(tag)
     delivered = []
+    dropped_tags = [leased.get(e[2]) for e in evs if e[0] == 'drop']
     for e in evs:
-      if e[0] == 'enq' and e[1] == 'req':
+      if e[0] == 'lease':
+        if k != 'req':
+          bad('unexpected-event', i, 'TagPool.get() called outside AsyncProcessRequest')
+        else:
+          leased[op[1]] = e[1]
+      elif e[0] == 'release':
+        t = e[1]
+        by_peer = k == 'recv' and op[2] == t and answered is not None
+        if not by_peer and t not in dropped_tags:
+          bad('release-outside-release-point', i, 'tag %r returned to the pool, but the peer did not answer it in this step and no '
+              'unsent timed-out request holding it was dropped' % (t,))
+      elif e[0] == 'enq' and e[1] == 'req':
         t, c = e[2], e[3]
         if k != 'req' or c != op[1]:
           bad('unexpected-frame', i, 'request frame queued for call %s' % c)
+        if leased.get(c) != t:
+          bad('wire-tag-differs-from-lease', i, 'call %d leased tag %s from the pool but its frame header carries tag %d' % (c, leased.get(c), t))
         if t in (0, 1):
           bad('reserved-tag', i, 'request of call %d was given the reserved tag %d' % (c, t))
         elif not 2 <= t <= bound:
@@ -826,6 +893,8 @@ def _monitor_mux(case, obs):
       elif e[0] == 'enq' and e[1] == 'discard':
         if e[2] != 0:
           bad('discard-frame-tag', i, 'Tdiscarded queued with frame tag %d' % e[2])
+        if k != 'notify' or leased.get(op[1]) != e[3]:
+          bad('discard-names-wrong-tag', i, 'Tdiscarded names tag %d; the timed-out call leased %s' % (e[3], leased.get(op[1]) if k == 'notify' else None))
       elif e[0] == 'enq' and e[1] == 'ping':
         if e[2] != 1:
           bad('ping-tag', i, 'Tping queued on tag %d' % e[2])
@@ -837,11 +906,13 @@ def _monitor_mux(case, obs):
           bad('tag-out-of-range', i, 'request of call %d written with tag %d (allowed 2..%d)' % (c, t, bound))
         if queued.get(c) != t:
           bad('written-tag-differs', i, 'call %d written with tag %d but queued with %s' % (c, t, queued.get(c)))
+        if leased.get(c) != t:
+          bad('wire-tag-differs-from-lease', i, 'call %d leased tag %s from the pool but is written with tag %d' % (c, leased.get(c), t))
         other = held.get(t)
         if other is not None and other != c and other in written:
           bad('duplicate-tag-on-wire', i, 'call %d written with tag %d while the written request of call %d is unanswered on it' % (c, t, other))
-        if t > 1 + peak:
-          bad('reuse-bound', i, 'tag %d written although at most %d requests were ever unanswered together' % (t, peak))
+        if t > hi0 + peak:
+          bad('reuse-bound', i, 'tag %d written although at most %d requests were ever unanswered together (pool started at %d)' % (t, peak, hi0))
         written.add(c)
       elif e[0] == 'wr' and e[1] == 'discard':
         if e[2] != 0:
@@ -876,7 +947,7 @@ def _monitor_mux(case, obs):
         bad('reply-misrouted', i, 'peer frame type %d tag %d: delivered to %s, holder of the tag: %s' % (op[1], op[2], delivered, want))
     elif delivered:
       bad('reply-misrouted', i, 'reply delivered to %s without a peer frame' % delivered)
-  if case.get('long') and hi > case['long'] + 1:
+  if case.get('long') and not case.get('start') and hi > case['long'] + 1:
     v.append(('long-run-high-water', 'steady traffic with at most %d unanswered requests used tags up to %d' % (case['long'], hi)))
   return v
 
@@ -923,6 +994,9 @@ def _label(op, evs):
     for e in evs:
       if e[0] == 'enq' and e[1] == 'req':
         pick = e[2]
+    for e in evs:
+      if e[0] == 'lease':          # what TagPool.get() returned (the wire tag above is the fallback)
+        pick = e[1]
     return 'Req %s %s %s' % (C.zlit(op[1]), C.zlit(op[2]), C.zlit(pick))
   if k == 'send':
     return 'SendStep %s' % C.blit(op[1])
@@ -970,8 +1044,9 @@ def to_coq(case, obs):
   if len(case['ops']) > MAX_COQ_OPS:
     return None
   labels = [_label(op, evs) for op, evs in zip(case['ops'], obs['steps'])]
-  exp = [C.lst([_event(e) for e in evs]) for evs in obs['steps']]
-  cfg = '{| max_tag := %s; kafka := %s |}' % (C.zlit(case.get('max') or REAL_MAX), C.blit(case['proto'] == 'kafka'))
+  exp = [C.lst([_event(e) for e in evs if e[0] not in ('lease', 'release')]) for evs in obs['steps']]
+  cfg = '{| max_tag := %s; kafka := %s; base := %s |}' % (C.zlit(case.get('max') or REAL_MAX), C.blit(case['proto'] == 'kafka'),
+                                                        C.zlit(case.get('start') or 1))
   return 'CMux %s %s %s' % (cfg, C.lst(labels), C.lst(exp))
 
 
@@ -991,6 +1066,10 @@ def _branches(case, obs):
   if case['kind'] == 'fill':
     b['fill:' + ('refused' if obs['refused'] else 'room')] += 1
     return b
+  st = case.get('start')
+  if st:
+    b['pool-fast-forwarded:' + ('below-2^16' if st < 65500 else 'around-2^16' if st <= 65600 else 'top-of-tag-space' if st >= 2 ** 24 - 64
+                                else 'between')] += 1
   closed = False
   tagof = {}
   answered_unsent = set()
